@@ -343,6 +343,7 @@ def generate(tier, seed, wd):
         g = _tlc_mc("TrackerGen", defs, wd / f"gen_{name}", constants={"MaxSteps": ms}, next_="GenNext", invariants=INVS, timeout=3000)
         runs.append(g)
         hists += g.json_lines
+    hists.sort(key=lambda h: json.dumps(h, sort_keys=True))               # TLC's output order depends on its worker threads
     n_ex = len(hists)
     depth, num = (10, 90) if q else (18, 2000)
     s = _tlc_mc("TrackerGen", {"Calls": FULL, "Ctl": sset(CTL), "Persist": "BOOLEAN", "PreEnter": "FALSE"}, wd / "sim",
@@ -350,11 +351,10 @@ def generate(tier, seed, wd):
                 seed=seed + 1, workers=4, timeout=3000)
     runs.append(s)
     seen = set()
-    for j in s.json_lines:
-        k = json.dumps(j["steps"]) + str(j["persistent"])
+    for k in sorted(json.dumps(j, sort_keys=True) for j in s.json_lines):
         if k not in seen:
             seen.add(k)
-            hists.append(j)
+            hists.append(json.loads(k))
     bad = None
     for r in runs:
         if r.invariant_violated:
